@@ -1,7 +1,7 @@
 ------------------------- MODULE PlanConvProcJudge -------------------------
 (***************************************************************************)
 (* C29 judge.  Batch = ndjson, one record per problem:                     *)
-(*   [pid, off, P, keys, plans : <<[steps, fwd, back]>>]                   *)
+(*   [pid, off, P, keys, plans : <<[steps, fwd, back, back2]>>]            *)
 (*   (plans off+1 .. off+Len(plans) of problem pid)                        *)
 (*   steps  the original plan   <<[a, args, t, d]>>                        *)
 (*   fwd    [exc, ev]   what plan_forward_conversion returned: the events  *)
@@ -9,6 +9,8 @@
 (*          or the name of the exception it raised                         *)
 (*   back   [exc, items] what plan_back_conversion returned on that plan:  *)
 (*          <<[t, a, args, d]>> (exc = "not-run" when forward raised)      *)
+(*   back2  the same for the forward plan with its timed actions listed in *)
+(*          another order (a plan is a bag: the result must not change)    *)
 (* Verdicts are total (pi = off + index):                                  *)
 (*   <<"U", pid, pi, reason>>     outside the zone of the property         *)
 (*   <<"FAIL", pid, pi, clause, fwdAsModel>>                               *)
@@ -34,6 +36,7 @@ Clauses(C, rec) ==
        items == Items(P, rec.steps)
        evs == [i \in DOMAIN rec.fwd.ev |-> NormEv(rec.fwd.ev[i])]
        back == [i \in DOMAIN rec.back.items |-> NormIt(rec.back.items[i])]
+       back2 == [i \in DOMAIN rec.back2.items |-> NormIt(rec.back2.items[i])]
        known == \A i \in DOMAIN evs : IsStartEv(P, evs[i]) \/ IsEndEv(P, evs[i])
    IN IF rec.fwd.exc # "" THEN {"forward-raises-" \o rec.fwd.exc}
       ELSE (IF \E i \in DOMAIN rec.fwd.ev : rec.fwd.ev[i].d.k # "none" THEN {"forward-event-has-duration"} ELSE {})
@@ -43,6 +46,8 @@ Clauses(C, rec) ==
                       \cup (IF EndInside(P, items, evs) THEN {} ELSE {"end-not-inside-duration"}))
            \cup (IF rec.back.exc # "" THEN {"back-raises-" \o rec.back.exc}
                  ELSE IF SameBag(back, items) THEN {} ELSE {"roundtrip"})
+           \cup (IF rec.back2.exc # "" THEN {"back-raises-" \o rec.back2.exc \o "-reordered"}
+                 ELSE IF SameBag(back2, items) THEN {} ELSE {"roundtrip-reordered"})
 
 \* diagnostic only: the observed forward plan is the specification's Forward(p)
 FwdAsModel(C, rec) ==
